@@ -4,6 +4,7 @@ package controller
 
 import (
 	"strconv"
+	"time"
 )
 
 func init() {
@@ -25,9 +26,11 @@ func (w *vWorld) removalAllowed(n *vNode, o *NodeGroupOptions, nowSec, nowNsec i
 	parsable := n.class == tcEsc || n.class == tcEscAndForce
 	force := n.class == tcForce || n.class == tcEscAndForce
 	empty := n.groupPods == 0
-	ageNs := (nowSec-n.taintTs)*1000000000 + nowNsec
-	soft := int64(o.SoftDeleteGracePeriodDuration())
-	hard := int64(o.HardDeleteGracePeriodDuration())
+	// "more than the grace period in the past": time arithmetic as the time package does
+	// it (a taint time in the far future saturates, it never counts as long ago)
+	ageNs := time.Unix(nowSec, nowNsec).Sub(time.Unix(n.taintTs, 0))
+	soft := o.SoftDeleteGracePeriodDuration()
+	hard := o.HardDeleteGracePeriodDuration()
 	a := parsable && empty
 	b := parsable
 	c := force && empty
@@ -41,6 +44,7 @@ func (w *vWorld) removalAllowed(n *vNode, o *NodeGroupOptions, nowSec, nowNsec i
 func VerifHarness_C01() {
 	N, P, F, menu, band := verifShape(0), verifShape(1), verifShape(2), verifShape(3), verifShape(4)
 	w := newWorld(F)
+	w.minTaintAge = -20000000000 // taint values up to ~630 years ahead of the clock
 	o := groupOpts(0)
 	gm := graceMenus[verifChoice("grace", len(graceMenus))]
 	o.SoftDeleteGracePeriod, o.HardDeleteGracePeriod = gm.soft, gm.hard
@@ -52,7 +56,7 @@ func VerifHarness_C01() {
 		class := classes[verifChoice("n"+is+".class", len(classes))]
 		cordoned := verifBool("n" + is + ".cordoned")
 		annot := 0
-		taintAge := verifInt("n"+is+".taintAge", -60, 2000)
+		taintAge := verifInt("n"+is+".taintAge", w.minTaintAge, 2000)
 		w.addNode(g, class, cordoned, annot, taintAge, int64(5000+100*i), true)
 	}
 	for j := 0; j < P; j++ {
@@ -97,8 +101,8 @@ func VerifHarness_C01() {
 			continue
 		}
 		verifAssert("C01.removal-justified", w.removalAllowed(n, opts, w.base+cs, cn))
-		ageNs := (w.base+cs-n.taintTs)*1000000000 + cn
-		hard := int64(opts.HardDeleteGracePeriodDuration())
+		ageNs := time.Unix(w.base+cs, cn).Sub(time.Unix(n.taintTs, 0))
+		hard := opts.HardDeleteGracePeriodDuration()
 		switch {
 		case n.class == tcForce || n.class == tcEscAndForce:
 			verifReach("C01.removed-force")
